@@ -46,7 +46,25 @@ pub fn vocab(code: &str) -> Vocab {
     let mut titles: Vec<String> = vec![];
     let mut func: Vec<String> = vec![];
     let mut accents: Vec<char> = vec![];
-    if let Some(f) = lang_file(code) {
+    // the language tables as the translator read them this run (build/lang_tables.txt); only if that file is missing
+    // is the Rust text parsed here
+    let tables = std::fs::read_to_string(std::env::var("VERIF_LANG_TABLES").unwrap_or_else(|_| "/verif/build/lang_tables.txt".to_string())).ok();
+    let mut from_tables = false;
+    if let Some(t) = &tables {
+        let dec = |s: &str| -> String { s.split(',').filter_map(|x| x.trim().parse::<u32>().ok()).filter_map(char::from_u32).collect() };
+        for line in t.lines() {
+            let mut it = line.splitn(3, ' ');
+            let (c, kind, rest) = (it.next().unwrap_or(""), it.next().unwrap_or(""), it.next().unwrap_or(""));
+            if c != code { continue; }
+            from_tables = true;
+            match kind {
+                "func" => { func = rest.split(';').filter(|x| !x.is_empty()).map(dec).collect(); }
+                "accents" => { accents = dec(rest).chars().collect(); }
+                _ => {}
+            }
+        }
+    }
+    if let (false, Some(f)) = (from_tables, lang_file(code)) {
         if let Ok(src) = std::fs::read_to_string(format!("/repo/rust/core/src/lang/lang_{}.rs", f)) {
             let cut = src.find("#[cfg(test)]").unwrap_or(src.len());
             let src = &src[..cut];
